@@ -5,18 +5,47 @@ CFG = {
     "model_targets": ["Encoding/Templates.vo"],
     "proof_targets": ["Props/C11.vo"],
     "harness": [{"bin": "h_modes", "prefix": "cases_modes", "timeout": 3000}],
-    "corr_is_violation": False,
+    # the compared observation (class partition of probe terms) is what the property constrains and the
+    # model is proved to satisfy it (c11_session_sound/complete, c11_encoded_equiv_native)
+    "corr_is_violation": True,
     "trusted": [
-        "hand-written model coq/Encoding/Datalog.v (Datalog-with-functions semantics: all matches, then deletes, then sets) "
-        "and coq/Encoding/Templates.v (maintenance rule templates + schedule + session layer, transcribed from "
-        "src/proofs/proof_encoding.rs / the doc_example snapshot), tied to the engine by the correspondence check h_modes "
-        "(class partition of probe terms of the real term-encoding engine vs the encoded model vs the native Egg model)",
-        "the native model coq/Egg/Model.v and its C01 theorems (Egg/CC.v)",
+        "hand-written model coq/Encoding/Datalog.v (Datalog-with-functions semantics: all matches of a ruleset, then "
+        "the staged deletes, then the staged sets, as core-relations merges pending removals before pending rows) and "
+        "coq/Encoding/Templates.v (maintenance rule templates + between-commands schedule + session layer, "
+        "transcribed from src/proofs/proof_encoding.rs and the doc_example_add_function1 snapshot), tied to the engine "
+        "by the correspondence check h_modes: class partition of probe terms of the REAL term-encoding engine vs the "
+        "encoded Gallina model vs the native Egg model on generated constructor-only sessions",
+        "the native model coq/Egg/Model.v and its C01 theorems (Egg/CC.v), used by c11_encoded_equiv_native",
+        "the templates are transcribed by hand, not extracted from the encoder's output (no enc_ok checker): a change "
+        "of the generated rules is noticed only through the correspondence cases",
     ],
-    "theorem_backed": "filled in below",
-    "link_only": "filled in below",
+    "theorem_backed": (
+        "for every constructor-only signature with one eq-sort: (1) every ruleset / schedule of the maintenance "
+        "program preserves the encoding invariant, in particular soundness (every UF pair, index entry and view row "
+        "is in the congruence closure of the asserted unions) and the self-loop/domain-closure invariant "
+        "(c11_maint_sound); (2) if the between-commands schedule returns, the result is canonical (single parent, "
+        "path-compressed, index mirrors UF, all eq-sort view columns are roots) and the view tables are functional, "
+        "no equality and no view row is lost, and the partition is closed under congruence over the view tables "
+        "(c11_maint_computes_cc); (3) for every well-sorted history of insertions and unions of ground terms on the "
+        "encoded session model: two terms evaluate through the view tables to the same leader iff they are in the "
+        "congruence closure of the unions performed (c11_session_sound, c11_session_complete), hence the same class "
+        "partition as the native model of C01 (c11_encoded_equiv_native); the invariant is reachable "
+        "(c11_invariant_reachable)"
+    ),
+    "link_only": (
+        "termination of the saturate loops (all theorems are conditional on the run returning Ok; the model cases "
+        "run with explicit fuel); user rules, rewrites, rulesets/schedules, run :until, merge functions "
+        "(merge rule, cleanup rules, Current table), relations, delete/subsume (to_delete/to_subsume requests, "
+        "delete_rule_subsume), globals via let, push/pop, extraction costs, print-size, proof mode "
+        "(Proof-valued UF/view columns, Trans/Sym/Congr terms), containers, several eq-sorts, the reprint variant, "
+        "Ok/Err agreement: all by running the three real engines (h_modes); the correspondence between the "
+        "hand-transcribed templates and the rules the encoder emits: by the model cases only"
+    ),
     "assumptions": [
         "term ids are unbounded nat allocated in insertion order; ordering-max/min is the order of ids",
-        "one eq-sort; term mode (every UF/view output is ()), proof columns are link-only",
+        "one eq-sort; term mode (every UF/view output is ()); proof columns are link-only",
+        "a ruleset iteration applies all staged deletes before all staged sets (core-relations table merge order)",
+        "saturate stops when one iteration reports no change, where change = some delete hit a row or some set "
+        "added a row / changed a value",
     ],
 }
